@@ -150,8 +150,8 @@ def check(ctx, rep):
         first = [v for t, v, b in q.atoms(p) if q.self_field(t) and t != EVENTS]
         if first and first[0] is False:
             rep.ob("R-REFS-EVENT", "get_event installs the exit hook on first use", len(regs) == 1, "", where_of(ge))
-    nreb = roles.rebuild_rule(ctx, rep, h, EVENTS[2], "R-REFS-EVENT", "the registry of worker events")
-    rep.count("rebuilds of the event registry", nreb, 1)
+    nreb, nin = roles.shrink_rule(ctx, rep, h, EVENTS[2], "R-REFS-EVENT", "the registry of worker events")
+    rep.count("places where dead entries leave the event registry (rebuild or in-place removal)", nreb + nin, 1)
     hooked = [p for p in ps if any(q.call_name(e) == "register" for e in p.calls())]
     rep.ob("R-REFS-EVENT", "get_event has a path installing the exit hook", bool(hooked), "atexit registration of on_exiting not found", where_of(ge))
 
